@@ -37,10 +37,46 @@ reg(part('ext', 'src/ext.rs', 'ext'))
 reg(part('vector', 'src/vector.rs', 'vector', drop_items=['mod aarch64neon', 'mod wasm_simd128']))
 reg(part('generic_memchr', 'src/arch/generic/memchr.rs', 'arch::generic::memchr', deref_idents=['ptr']))
 reg(part('sse2_memchr', 'src/arch/x86_64/sse2/memchr.rs', 'arch::x86_64::sse2::memchr'))
+reg(part('avx2_memchr', 'src/arch/x86_64/avx2/memchr.rs', 'arch::x86_64::avx2::memchr'))
+reg(part('all_memchr', 'src/arch/all/memchr.rs', 'arch::all::memchr', deref_idents=['ptr']))
+reg(part('all_mod', 'src/arch/all/mod.rs', 'arch::all'))
+reg(part('all_rabinkarp', 'src/arch/all/rabinkarp.rs', 'arch::all::rabinkarp'))
+reg(part('all_twoway', 'src/arch/all/twoway.rs', 'arch::all::twoway'))
+reg(part('all_packedpair', 'src/arch/all/packedpair/mod.rs', 'arch::all::packedpair'))
+reg(part('all_default_rank', 'src/arch/all/packedpair/default_rank.rs', 'arch::all::packedpair::default_rank'))
+reg(part('generic_packedpair', 'src/arch/generic/packedpair.rs', 'arch::generic::packedpair'))
+reg(part('sse2_packedpair', 'src/arch/x86_64/sse2/packedpair.rs', 'arch::x86_64::sse2::packedpair'))
+reg(part('avx2_packedpair', 'src/arch/x86_64/avx2/packedpair.rs', 'arch::x86_64::avx2::packedpair'))
+# S variant (release semantics, type invariants only; DESIGN 2.1): same sources, debug_assert dropped, assert = panic
+S_OPTS = dict(debug_asserts='drop', asserts='panic')
+reg(part('s_vector', 'src/vector.rs', 'vector', drop_items=['mod aarch64neon', 'mod wasm_simd128'], **S_OPTS))
+reg(part('s_all_mod', 'src/arch/all/mod.rs', 'arch::all', **S_OPTS))
+reg(part('s_all_packedpair', 'src/arch/all/packedpair/mod.rs', 'arch::all::packedpair', **S_OPTS))
+reg(part('s_generic_packedpair', 'src/arch/generic/packedpair.rs', 'arch::generic::packedpair', **S_OPTS))
+reg(part('s_sse2_packedpair', 'src/arch/x86_64/sse2/packedpair.rs', 'arch::x86_64::sse2::packedpair', **S_OPTS))
+reg(part('s_avx2_packedpair', 'src/arch/x86_64/avx2/packedpair.rs', 'arch::x86_64::avx2::packedpair', **S_OPTS))
+reg(part('memchr_top', 'src/memchr.rs', 'memchr', cfg='x86_64'))
+reg(part('x86_64_memchr', 'src/arch/x86_64/memchr.rs', 'arch::x86_64::memchr'))
+reg(part('memmem_mod', 'src/memmem/mod.rs', 'memmem'))
+reg(part('memmem_searcher', 'src/memmem/searcher.rs', 'memmem::searcher'))
+reg(part('cow', 'src/cow.rs', 'cow'))
 
+P0 = ['prelude/vbase.vrs']
+BASE = ['ext', 'vector', 'generic_memchr']
 BUILDS = {
-    'main': dict(parts=['ext', 'vector', 'generic_memchr'],
-                 prelude=['prelude/vbase.vrs']),
+    'main': dict(parts=BASE, prelude=P0),
+    # development builds (one per porting task; each may add its own prelude/x_<name>.vrs)
+    'dev_generic': dict(parts=BASE, prelude=P0),
+    'dev_eq': dict(parts=['ext', 'vector', 'all_mod'], prelude=P0),
+    'dev_x86': dict(parts=BASE + ['sse2_memchr', 'avx2_memchr'], prelude=P0 + ['prelude/x_x86.vrs']),
+    'dev_swar': dict(parts=BASE + ['all_memchr'], prelude=P0 + ['prelude/x_swar.vrs']),
+    'dev_eqrk': dict(parts=['ext', 'vector', 'all_mod', 'all_rabinkarp'], prelude=P0 + ['prelude/x_eqrk.vrs']),
+    'dev_pp': dict(parts=BASE + ['all_mod', 'all_packedpair', 'all_default_rank', 'generic_packedpair',
+                                 'sse2_packedpair', 'avx2_packedpair'], prelude=P0 + ['prelude/x_eqrk.vrs', 'prelude/x_pp.vrs']),
+    'dev_pps': dict(parts=['ext', 's_vector', 's_all_mod', 's_all_packedpair', 'all_default_rank', 's_generic_packedpair',
+                           's_sse2_packedpair', 's_avx2_packedpair'], prelude=P0 + ['prelude/x_eqrk.vrs', 'prelude/x_pp.vrs']),
+    'dev_tw': dict(parts=['ext', 'vector', 'all_mod', 'all_twoway'], prelude=P0 + ['prelude/x_eqrk.vrs', 'prelude/x_tw.vrs']),
+    'dev_memmem': dict(parts=['ext', 'vector', 'memmem_mod', 'memmem_searcher', 'cow'], prelude=P0 + ['prelude/x_memmem.vrs']),
 }
 
 CONFIGS_EXTRA = {'union': UNION}
